@@ -5,7 +5,7 @@ d=$(readlink -f "$1"); wt=$2
 export GOFLAGS=-mod=mod GOPROXY=off GOSUMDB=off GOTOOLCHAIN=local
 patch=$d/patch.diff; [ -f $d/patch.refreshed.diff ] && patch=$d/patch.refreshed.diff
 cd $wt || exit 2
-git checkout -q --detach $(git -C /repo rev-parse HEAD) 2>/dev/null; git checkout -q -- . ; git clean -fdq
+git checkout -q --detach ${BASE:-$(git -C /repo rev-parse HEAD)} 2>/dev/null; git checkout -q -- . ; git clean -fdq
 cp $d/demo_test.go ./zz_demo_test.go
 name=$(grep -o 'func Test[A-Za-z0-9_]*' zz_demo_test.go | sed 's/func //' | paste -sd'|')
 name="($name)"
